@@ -33,6 +33,7 @@ TARGETS = [
     ("evict-inflight", "N_EvictInflight", "PL2", 1, 0, 0),
     ("fail-removes-newer", "N_FailRemovesNewer", "PT4", 1, 0, 1),
     ("join-failing", "N_JoinFailing", "PL1", 1, 0, 1),
+    ("lost-with-waiters", "N_LostWithWaiters", "PL1", 1, 0, 1),
     ("unprepared-twice", "N_UnpreparedTwice", "PL1", 2, 1, 0),
     ("unprepared-inflight", "N_UnpreparedInflight", "PL1", 2, 1, 0),
     ("batch-thrash", "N_BatchThrash", "PS3", 1, 1, 0),
@@ -284,7 +285,7 @@ def run(ctx):
     # ---- 1. everything TLC and the Go compiler can do side by side
     fut_build = pool.submit(vf.build_gotest, ctx, ".", ["common", "c14"])
     # quick tier: the interleaving targets and the batch that meets UNPREPARED; arity is also reached by the walks
-    fut_targets = [pool.submit(_target, ctx, t) for t in (TARGETS[:7] if quick else TARGETS)]
+    fut_targets = [pool.submit(_target, ctx, t) for t in (TARGETS[:8] if quick else TARGETS)]
     fut_walks = [pool.submit(_walks, ctx, lru, uq, nwalk // 2, ctx.seed * 7919 + lru) for lru, uq in ((1, "TRUE"), (2, "FALSE"))]
     fut_models = [pool.submit(_model_pass, ctx, m, 4 if quick else 6, 900 if quick else 3000, "4g" if quick else "8g")
                   for m in models]
